@@ -56,14 +56,14 @@ KnownTable ==
      <<"struct-nested-default", "prop", "C06/RealisedHasUnexpectedMembers", "C06-nested-defaults-not-applied">>,
      <<"tuple-arity", "type", "C06/InvalidDefaultAccepted", "C06-type-level-default-not-validated">>,
      <<"tuple-bad", "type", "C06/InvalidDefaultAccepted", "C06-type-level-default-not-validated">>,
-     <<"tuple1", "prop", "C06/ValidDefaultBreaksCompilation", "C06-one-tuple-default">>,
      <<"unit-null", "prop", "C06/ValidDefaultBreaksRendering", "C06-unit-default-render-panic">>,
      <<"untagged-bad", "prop", "C06/InvalidDefaultAccepted", "C06-property-default-not-validated-for-kind">>,
      <<"untagged-bad", "type", "C06/InvalidDefaultAccepted", "C06-type-level-default-not-validated">>,
      <<"uuid-bad", "prop", "C06/InvalidDefaultAccepted", "C06-property-default-not-validated-for-kind">>,
      <<"uuid-bad", "type", "C06/InvalidDefaultAccepted", "C06-type-level-default-not-validated">>,
      <<"vec-bad", "type", "C06/InvalidDefaultAccepted", "C06-type-level-default-not-validated">>,
-     <<"vec-notarr", "type", "C06/InvalidDefaultAccepted", "C06-type-level-default-not-validated">> >>
+     <<"vec-notarr", "type", "C06/InvalidDefaultAccepted", "C06-type-level-default-not-validated">>,
+     <<"fmt-int64-over", "prop", "C06/InvalidDefaultAccepted", "C06-int64-default-one-past-max">> >>
 (* type-level defaults are never validated on the pinned tree (lib.rs:691-752): every accepted
    invalid default in position "type" belongs to that one finding; the flattened-member finding is
    any valid struct default that reaches a typed additionalProperties map *)
